@@ -80,9 +80,8 @@ func (p *Puback) Unpack(r io.Reader) error {
 		if !ValidateCode(PUBACK, p.Code) {
 			return codes.ErrProtocol
 		}
-		if err := p.Properties.Unpack(bufr, PUBACK); err != nil {
-			return err
-		}
+		return p.Properties.Unpack(bufr, PUBACK)
 	}
-	return nil
+	// a v3 acknowledgement is exactly the packet identifier
+	return codes.ErrMalformed
 }
